@@ -190,6 +190,8 @@ class Evaluator:
             if h is not None:
                 obj = self.eval(e["obj"], env, this) if e.get("obj") is not None else None
                 args = [self.eval(a, env, this) for a in e.get("a", [])]
+                if obj is None and e.get("op") and e.get("ismethod") and args:
+                    obj, args = args[0], args[1:]      # member operator written infix: the object is the first operand
                 return h(self, obj, args)
             if e.get("op") in ("==", "!=", "<", ">", "<=", ">=") and len(e.get("a", [])) == 2:
                 a = self.eval(e["a"][0], env, this)
